@@ -20,7 +20,7 @@ CLAIMED = {
  'C02': dict(
    text='C02_forward: any halfword a generated c.* encoder returns (all operand spellings, ALL integers) is a legal non-hint non-reserved RV32C encoding '
         'whose decode16 names the operands; C02_converse: each of the 65 536 halfwords that decode16 accepts is produced from its canonical operands; '
-        'C02_injective. Proof: symbolic guard extraction per mnemonic + in-kernel sweep (vm_compute) over the complete guard box of every mnemonic and over all halfwords. '
+        'C02_injective; C02_line_end_to_end: an explicitly written compressed instruction (two registers, or register + literal) goes through the parser model and all 16 passes to exactly the two little-endian bytes of the encoder\'s halfword. Proof: symbolic guard extraction per mnemonic + in-kernel sweep (vm_compute) over the complete guard box of every mnemonic and over all halfwords. '
         'Falsifier: all tuples in and around the legal sets on the real encoders; all 65 536 halfwords re-assembled from canonical text by the real assembler.',
    note='Trusted: as C01 plus the vm_compute machine for the finite sweeps; Spec/RVC.v decode16 (cross-checked: accepts 28 461 halfwords).',
    technique='Coq proof: symbolic guard lemmas + exhaustive in-kernel sweeps over generated encoders; exhaustive falsifier',
